@@ -40,6 +40,7 @@ var (
 
 func main() {
 	flag.Parse()
+	sim.Tier = *tier
 	switch {
 	case *replay != "":
 		os.Exit(doReplay())
